@@ -49,6 +49,8 @@ Definition rule_ok (nquads : bool) (rl : rule) : Prop :=
   pos_ok (r_sk rl) (r_sv rl) (r_stt rl) /\ pos_ok (r_pk rl) (r_pv rl) TIri /\ pos_ok (r_ok rl) (r_ov rl) (r_ott rl) /\
   (r_ld rl <> LDNone -> pos_ok (r_ldk rl) (r_ldv rl) TNone) /\
   (nquads = true -> (pos_ok (r_gk rl) (r_gv rl) TIri \/ r_gk rl = KNone)).
+Definition po_names (rl : rule) : list ustr :=
+  names (segs_of (r_pk rl) (r_pv rl)) ++ names (segs_of (r_ok rl) (r_ov rl)) ++ names (segs_of (r_ldk rl) (r_ldv rl)).
 Definition rule_names (rl : rule) : list ustr :=
   names (segs_of (r_sk rl) (r_sv rl)) ++ names (segs_of (r_pk rl) (r_pv rl)) ++ names (segs_of (r_ok rl) (r_ov rl))
   ++ names (segs_of (r_ldk rl) (r_ldv rl)) ++ names (segs_of (r_gk rl) (r_gv rl)).
@@ -107,28 +109,31 @@ Definition spec_suffix_of (scfg : scfg) (rl : rule) (sr : srow) : option ustr :=
   | LDLang => option_map (fun l => 64 :: l) (spec_lex scfg (r_ldk rl) (r_ldv rl) TNone [] sr)
   | LDDt => option_map (fun d => 94 :: 94 :: render TIri d) (spec_lex scfg (r_ldk rl) (r_ldv rl) TIri [] sr)
   end.
-Definition spec_parts (scfg : scfg) (rl : rule) (sr : srow) : option (ustr * ustr * ustr) :=
-  match spec_lex scfg (r_sk rl) (r_sv rl) (r_stt rl) [] sr with None => None | Some s =>
+Definition spec_po (scfg : scfg) (rl : rule) (sr : srow) : option (ustr * ustr) :=
   match spec_lex scfg (r_pk rl) (r_pv rl) TIri [] sr with None => None | Some p =>
   match spec_lex scfg (r_ok rl) (r_ov rl) (r_ott rl) (r_ldv rl) sr with None => None | Some o =>
   match spec_suffix_of scfg rl sr with None => None | Some suffix =>
-  Some (render (r_stt rl) s, render TIri p, render (r_ott rl) o ++ suffix) end end end end.
+  Some (render TIri p, render (r_ott rl) o ++ suffix) end end end.
+Definition spec_parts (scfg : scfg) (rl : rule) (sr : srow) : option (ustr * ustr * ustr) :=
+  match spec_lex scfg (r_sk rl) (r_sv rl) (r_stt rl) [] sr with None => None | Some s =>
+  match spec_po scfg rl sr with None => None | Some (p, o) => Some (render (r_stt rl) s, p, o) end end.
+Definition spec_graph_line (scfg : scfg) (rl : rule) (sr : srow) (triple : ustr) : option ustr :=
+  if s_nquads scfg then
+    match (if is_plain (r_gk rl) && negb (ueqb (r_gv rl) Tables.c_rml_default_graph)
+           then opt_term TIri (spec_lex scfg (r_gk rl) (r_gv rl) TIri [] sr) else Some []) with
+    | None => None
+    | Some g => Some (triple ++ [32] ++ g)
+    end
+  else Some triple.
+Definition graph_ok (nquads : bool) (rl : rule) : Prop := nquads = true -> (pos_ok (r_gk rl) (r_gv rl) TIri \/ r_gk rl = KNone).
 Lemma spec_rule_line_parts scfg rl sr :
   spec_rule_line scfg rl sr =
   match spec_parts scfg rl sr with
   | None => None
-  | Some (s, p, o) =>
-      let triple := s ++ [32] ++ p ++ [32] ++ o in
-      if s_nquads scfg then
-        match (if is_plain (r_gk rl) && negb (ueqb (r_gv rl) Tables.c_rml_default_graph)
-               then opt_term TIri (spec_lex scfg (r_gk rl) (r_gv rl) TIri [] sr) else Some []) with
-        | None => None
-        | Some g => Some (triple ++ [32] ++ g)
-        end
-      else Some triple
+  | Some (s, p, o) => spec_graph_line scfg rl sr (s ++ [32] ++ p ++ [32] ++ o)
   end.
 Proof.
-  unfold spec_rule_line, spec_parts, spec_suffix_of.
+  unfold spec_rule_line, spec_parts, spec_po, spec_suffix_of, spec_graph_line.
   destruct (spec_lex scfg (r_sk rl) (r_sv rl) (r_stt rl) [] sr); auto.
   destruct (spec_lex scfg (r_pk rl) (r_pv rl) TIri [] sr); auto.
   destruct (spec_lex scfg (r_ok rl) (r_ov rl) (r_ott rl) (r_ldv rl) sr); auto.
@@ -142,27 +147,22 @@ Section Row.
   Variables (cfg : ecfg) (fe : fenv) (scfg : scfg).
   Hypothesis Hcfg : cfg_agree cfg scfg.
 
-  Ltac sub_names := intros ? ?; unfold rule_names; rewrite !in_app_iff; tauto.
+  Ltac sub_names := let n := fresh in let H := fresh in intros n H; unfold rule_names, po_names in *; rewrite ?in_app_iff in H; rewrite ?in_app_iff; tauto.
 
-  Lemma terms_phase rl r sr :
-    rule_ok (c_nquads cfg) rl -> row_agree scfg sr [] r (rule_names rl) ->
+  Lemma po_phase rl r r1 sr s :
+    mat_pos cfg fe (r_sk rl) (r_sv rl) col_subject [] (r_stt rl) [] r = Ok [r1] ->
+    same_data r r1 -> rget col_subject r1 = Some s ->
+    pos_ok (r_pk rl) (r_pv rl) TIri -> pos_ok (r_ok rl) (r_ov rl) (r_ott rl) -> (r_ld rl <> LDNone -> pos_ok (r_ldk rl) (r_ldv rl) TNone) ->
+    row_agree scfg sr [] r (po_names rl) ->
     match mat_terms cfg fe rl [] r with
-    | Ok l => exists r' s p o, l = [r'] /\ spec_parts scfg rl sr = Some (s, p, o) /\
+    | Ok l => exists r' p o, l = [r'] /\ spec_po scfg rl sr = Some (p, o) /\
               rget col_subject r' = Some s /\ rget col_predicate r' = Some p /\ rget col_object r' = Some o /\ same_data r r'
-    | Err _ => spec_parts scfg rl sr = None
+    | Err _ => spec_po scfg rl sr = None
     end.
   Proof.
-    intros (HS & HP & HO & HL & HG) Hr. unfold mat_terms, spec_parts.
-    assert (NS : names_free (names (segs_of (r_sk rl) (r_sv rl)))) by apply HS.
+    intros HS1 D1 Gs HP HO HL Hr. unfold mat_terms, spec_po. rewrite HS1.
     assert (NP : names_free (names (segs_of (r_pk rl) (r_pv rl)))) by apply HP.
     assert (NO : names_free (names (segs_of (r_ok rl) (r_ov rl)))) by apply HO.
-    (* subject *)
-    rewrite mat_pos_plain by apply HS.
-    pose proof (term_step cfg scfg Hcfg (r_sk rl) (r_sv rl) (r_stt rl) [] col_subject r sr eq_refl HS) as T1.
-    destruct (mat_template cfg (r_sv rl) (r_sk rl) col_subject [] (r_stt rl) [] r) as [r1|e1]; cbn [rbind];
-      [|rewrite !bindl_err; rewrite T1; [reflexivity|eapply row_agree_sub; [|exact Hr]; sub_names]].
-    destruct T1 as (s & Es & Gs & Us); [eapply row_agree_sub; [|exact Hr]; sub_names|]. rewrite Es.
-    assert (D1 : same_data r r1) by (eapply unchanged_same_data; [|exact Us]; reflexivity).
     (* predicate *)
     rewrite bindl_single.
     rewrite mat_pos_plain by apply HP.
@@ -183,12 +183,12 @@ Section Row.
     destruct (T3 A2) as (o & Eo & Go & Uo). rewrite Eo.
     assert (D3 : same_data r2 r3) by (eapply unchanged_same_data; [|exact Uo]; reflexivity).
     assert (D03 : same_data r r3) by (eapply same_data_trans; [eapply same_data_trans; [exact D1|exact D2]|exact D3]).
-    assert (Gs3 : rget col_subject r3 = Some (render (r_stt rl) s)) by (rewrite Uo, Up by reflexivity; exact Gs).
+    assert (Gs3 : rget col_subject r3 = Some s) by (rewrite Uo, Up by reflexivity; exact Gs).
     assert (Gp3 : rget col_predicate r3 = Some (render TIri p)) by (rewrite Uo by reflexivity; exact Gp).
     (* language / datatype *)
     unfold spec_suffix_of.
     destruct (r_ld rl) eqn:Eld.
-    - exists r3, (render (r_stt rl) s), (render TIri p), (render (r_ott rl) o ++ []).
+    - exists r3, (render TIri p), (render (r_ott rl) o ++ []).
       rewrite app_nil_r. auto 10.
     - assert (HLd : pos_ok (r_ldk rl) (r_ldv rl) TNone) by (apply HL; discriminate).
       assert (NL : names_free (names (segs_of (r_ldk rl) (r_ldv rl)))) by apply HLd.
@@ -202,7 +202,7 @@ Section Row.
       rewrite bindl_single.
       destruct (T4 A3) as (l & El & Gl & Ul). rewrite El. cbn [option_map].
       rewrite Ul, Go, Gl by reflexivity.
-      eexists _, _, _, _. split; [reflexivity|]. split; [reflexivity|].
+      eexists _, _, _. split; [reflexivity|]. split; [reflexivity|].
       rewrite rget_rset_same, !rget_rset_other by reflexivity. rewrite !Ul by reflexivity.
       repeat split; auto.
       eapply same_data_trans; [exact D03|]. eapply same_data_trans; [eapply unchanged_same_data; [|exact Ul]; reflexivity|]. now apply rset_same_data.
@@ -218,37 +218,62 @@ Section Row.
       rewrite bindl_single.
       destruct (T4 A3) as (l & El & Gl & Ul). rewrite El. cbn [option_map].
       rewrite Ul, Go, Gl by reflexivity.
-      eexists _, _, _, _. split; [reflexivity|]. split; [reflexivity|].
+      eexists _, _, _. split; [reflexivity|]. split; [reflexivity|].
       rewrite rget_rset_same, !rget_rset_other by reflexivity. rewrite !Ul by reflexivity.
       repeat split; auto.
       eapply same_data_trans; [exact D03|]. eapply same_data_trans; [eapply unchanged_same_data; [|exact Ul]; reflexivity|]. now apply rset_same_data.
+  Qed.
+
+
+  Lemma terms_phase nq rl r sr :
+    rule_ok nq rl -> row_agree scfg sr [] r (rule_names rl) ->
+    match mat_terms cfg fe rl [] r with
+    | Ok l => exists r' s p o, l = [r'] /\ spec_parts scfg rl sr = Some (s, p, o) /\
+              rget col_subject r' = Some s /\ rget col_predicate r' = Some p /\ rget col_object r' = Some o /\ same_data r r'
+    | Err _ => spec_parts scfg rl sr = None
+    end.
+  Proof.
+    intros (HS & HP & HO & HL & HG) Hr. unfold spec_parts.
+    pose proof (term_step cfg scfg Hcfg (r_sk rl) (r_sv rl) (r_stt rl) [] col_subject r sr eq_refl HS) as T1.
+    assert (A0 : row_agree scfg sr [] r (names (segs_of (r_sk rl) (r_sv rl)))) by (eapply row_agree_sub; [|exact Hr]; sub_names).
+    specialize (T1 A0).
+    destruct (mat_template cfg (r_sv rl) (r_sk rl) col_subject [] (r_stt rl) [] r) as [r1|e1] eqn:E1.
+    - destruct T1 as (s & Es & Gs & Us). rewrite Es.
+      assert (D1 : same_data r r1) by (eapply unchanged_same_data; [|exact Us]; reflexivity).
+      assert (M : mat_pos cfg fe (r_sk rl) (r_sv rl) col_subject [] (r_stt rl) [] r = Ok [r1]) by (rewrite mat_pos_plain by apply HS; now rewrite E1).
+      assert (Hr' : row_agree scfg sr [] r (po_names rl)) by (eapply row_agree_sub; [|exact Hr]; sub_names).
+      pose proof (po_phase rl r r1 sr _ M D1 Gs HP HO HL Hr') as T.
+      destruct (mat_terms cfg fe rl [] r) as [l|e].
+      + destruct T as (r' & p & o & -> & Ep & G1 & G2 & G3 & D). rewrite Ep. exists r', (render (r_stt rl) s), p, o. auto 10.
+      + now rewrite T.
+    - rewrite T1. unfold mat_terms. rewrite mat_pos_plain by apply HS. rewrite E1. cbn [rbind]. now rewrite !bindl_err.
   Qed.
 
   Lemma rflat_single f (x : row) : rflat_rows f [x] = f x.
   Proof. unfold rflat_rows. simpl. destruct (f x); simpl; auto. now rewrite app_nil_r. Qed.
   Hypothesis Hnq : c_nquads cfg = s_nquads scfg.
 
-  Theorem row_is_spec_row rl r sr :
-    rule_ok (c_nquads cfg) rl -> row_agree scfg sr [] r (rule_names rl) ->
-    match row_lines cfg fe rl r with
-    | Ok ls => exists line, spec_rule_line scfg rl sr = Some line /\ ls = [line]
-    | Err _ => spec_rule_line scfg rl sr = None
+  Definition extract_triples (fs : list row) : result (list ustr) :=
+    rmap_all (fun r1 => match rget col_triple r1 with Some t => Ok t | None => Err EKey end) fs.
+  Lemma finish_phase rl r r' sr s p o :
+    rget col_subject r' = Some s -> rget col_predicate r' = Some p -> rget col_object r' = Some o -> same_data r r' ->
+    graph_ok (c_nquads cfg) rl -> row_agree scfg sr [] r (names (segs_of (r_gk rl) (r_gv rl))) ->
+    match (rdo fs <- finish_row cfg fe 0 rl r'; extract_triples fs) with
+    | Ok ls => exists line, spec_graph_line scfg rl sr (s ++ [32] ++ p ++ [32] ++ o) = Some line /\ ls = [line]
+    | Err _ => spec_graph_line scfg rl sr (s ++ [32] ++ p ++ [32] ++ o) = None
     end.
   Proof.
-    intros Hok Hr. pose proof (terms_phase rl r sr Hok Hr) as T. rewrite spec_rule_line_parts. unfold row_lines.
-    destruct (mat_terms cfg fe rl [] r) as [l|e]; cbn [rbind]; [|now rewrite T].
-    destruct T as (r' & s & p & o & -> & Ep & Gs & Gp & Go & D). rewrite Ep. rewrite rflat_single.
-    unfold finish_row. rewrite Gs, Gp, Go. cbn [Nat.eqb andb]. rewrite <- Hnq.
+    intros Gs Gp Go D HG Hr. unfold finish_row, spec_graph_line, extract_triples. rewrite Gs, Gp, Go. cbn [Nat.eqb andb]. rewrite <- Hnq.
     set (triple := s ++ [32] ++ p ++ [32] ++ o).
     set (r1 := rset col_triple triple r').
     assert (D1 : same_data r r1) by (eapply same_data_trans; [exact D|]; now apply rset_same_data).
     destruct (c_nquads cfg) eqn:Enq.
-    - destruct Hok as (_ & _ & _ & _ & HG). specialize (HG eq_refl).
+    - specialize (HG eq_refl).
       destruct (is_plain (r_gk rl) && negb (ueqb (r_gv rl) Tables.c_rml_default_graph)) eqn:Eg.
       + destruct HG as [HG|HG]; [|rewrite HG in Eg; discriminate].
         pose proof (term_step cfg scfg Hcfg (r_gk rl) (r_gv rl) TIri [] col_graph r1 sr eq_refl HG) as T5.
         assert (A : row_agree scfg sr [] r1 (names (segs_of (r_gk rl) (r_gv rl)))).
-        { eapply row_agree_carry; [exact D1|apply HG|]. eapply row_agree_sub; [|exact Hr]. intros ? ?; unfold rule_names; rewrite !in_app_iff; tauto. }
+        { eapply row_agree_carry; [exact D1|apply HG|exact Hr]. }
         destruct (mat_template cfg (r_gv rl) (r_gk rl) col_graph [] TIri [] r1) as [r2|e2]; cbn [rbind]; [|now rewrite T5].
         destruct (T5 A) as (g & Eg2 & Gg & Ug). rewrite Eg2. cbn [opt_term option_map rmap_all].
         rewrite Gg, Ug by reflexivity. unfold r1 at 1. rewrite rget_rset_same. cbn [rbind map rmap_all].
@@ -258,5 +283,19 @@ Section Row.
         rewrite E. cbn [rbind rmap_all]. rewrite rget_rset_same, rget_rset_other by reflexivity. unfold r1 at 1. rewrite rget_rset_same.
         cbn [rbind map rmap_all]. rewrite !rget_rdrop_other by reflexivity. rewrite rget_rset_same. eexists. split; reflexivity.
     - cbn [rbind map rmap_all]. rewrite !rget_rdrop_other by reflexivity. unfold r1. rewrite rget_rset_same. eexists. split; reflexivity.
+  Qed.
+
+  Theorem row_is_spec_row rl r sr :
+    rule_ok (c_nquads cfg) rl -> row_agree scfg sr [] r (rule_names rl) ->
+    match row_lines cfg fe rl r with
+    | Ok ls => exists line, spec_rule_line scfg rl sr = Some line /\ ls = [line]
+    | Err _ => spec_rule_line scfg rl sr = None
+    end.
+  Proof.
+    intros Hok Hr. pose proof (terms_phase _ rl r sr Hok Hr) as T. rewrite spec_rule_line_parts. unfold row_lines.
+    destruct (mat_terms cfg fe rl [] r) as [l|e]; cbn [rbind]; [|now rewrite T].
+    destruct T as (r' & s & p & o & -> & Ep & Gs & Gp & Go & D). rewrite Ep. rewrite rflat_single.
+    destruct Hok as (_ & _ & _ & _ & HG).
+    apply (finish_phase rl r r' sr s p o Gs Gp Go D HG). eapply row_agree_sub; [|exact Hr]. intros ? ?; unfold rule_names; rewrite !in_app_iff; tauto.
   Qed.
 End Row.
